@@ -168,6 +168,14 @@ def main(args):
     run.function("compiler.front_end.constraints._check_type_requirements_for_field", "pyvc: explicit size vs fixed size vs field size (contracts/layout2.py)")
     run.function("compiler.front_end.constraints._check_that_array_base_types_in_structs_are_multiples_of_bytes",
                  "pyvc: one error iff the innermost element's known size (explicit, else fixed size of its type; symbolic) is not a multiple of the enclosing definition's addressable unit (contracts/layout2.py)")
+    run.function("compiler.front_end.attribute_checker.{_field_needs_byte_order,_field_may_have_null_byte_order,_add_missing_byte_order_attribute_on_field,_verify_byte_order_attribute_on_field}",
+                 "pyvc: byte order is needed iff a physical field's base type has another unit than its enclosing definition; Null is allowed iff the size is the constant 1 or the base type is one unit wide (symbolic sizes); "
+                 "missing attributes are filled from $default or with Null only then; verify reports not-allowed / required / Null-only-for-one-unit exactly (contracts/attrs.py)")
+    run.function("compiler.front_end.attribute_checker.{_add_addressable_unit_to_external,_verify_addressable_unit_attribute_on_external,_verify_requires_attribute_on_field}",
+                 "pyvc: external unit BIT iff the (symbolic) attribute is 1, BYTE iff 8, one error iff missing or another value; [requires] rejected on array fields (error + note) and on fields whose expression type is not integer / enumeration / boolean (contracts/attrs.py)")
+    run.function("compiler.util.attribute_util.{_is_constant_boolean,_is_boolean,_is_constant_integer,_is_string}", "pyvc: one error at the value, naming the attribute, iff the value is not of the checker's kind (contracts/attrs.py)")
+    run.function("compiler.util.attribute_util._check_attributes", "pyvc: for every list of <= 3 attributes over {a, $default a, b, (cpp) a} x back end x allowed set: other back ends ignored, one Duplicate error (with note) per repeated "
+                 "(name, is_default), one Unknown / may-not-be-defaulted error per pair the context does not allow, otherwise exactly the value checker's errors, in list order (contracts/attrs.py)")
     run.function("compiler.util.ir_util.fixed_size_of_type_in_bits", "pyvc: base size times the product of the (constant) dimensions for 0-2 dimensions with symbolic counts and sizes; None as soon as a dimension is omitted or not constant or the base has no fixed size")
     run.function("compiler.front_end.constraints._check_allowed_in_bits", "pyvc: one error iff a byte-oriented atomic member sits in a bit-oriented definition (contracts/layout2.py)")
     run.function("compiler.front_end.constraints._check_that_inner_array_dimensions_are_constant / _check_that_array_base_types_are_fixed_size",
